@@ -202,13 +202,6 @@ func stripRuntime(basename string, file *ast.File) map[string]bool {
 			if funcDecl.Name.Name == "schedtrace" {
 				funcDecl.Body.List = nil
 			}
-		case "runtime1.go":
-			switch funcDecl.Name.Name {
-			case "setTraceback":
-				// tracebacks are completely hidden, no
-				// sense keeping this function
-				funcDecl.Body.List = nil
-			}
 		case "runtime.go":
 			// writeErrStr bypasses the print builtins and writes fixed fatal
 			// diagnostics straight to stderr (and SetCrashOutput). Tiny mode
